@@ -436,7 +436,7 @@ def _load_rounding_parameters(date, rounding_spec):
 
     """
     out = {}
-    rounding_parameters = ["direction", "base"]
+    rounding_parameters = ["direction", "base", "to_add_after_rounding"]
 
     # Load values of all parameters at the specified date.
     for function_name, rounding_spec_func in rounding_spec.items():
